@@ -60,6 +60,11 @@ PROP_MODULES.append("WV.Props.C06_Links")
 if os.path.exists(os.path.join(os.path.dirname(os.path.dirname(os.path.dirname(os.path.abspath(__file__)))),
                                "lean", "WV", "Props", "C06_Objects.lean")):
     PROP_MODULES.append("WV.Props.C06_Objects")
+# translation validation of the Connection method bodies (tools/extract.py::extract_pyir_tr -> WV/Gen/PyIRTr.lean,
+# interpreter WV/Model/PyIR.lean): part of the check as soon as the module is installed (agents/deepTr_integration.md)
+if os.path.exists(os.path.join(os.path.dirname(os.path.dirname(os.path.dirname(os.path.abspath(__file__)))),
+                               "lean", "WV", "Props", "PyIRTr_C06.lean")):
+    PROP_MODULES.append("WV.Props.PyIRTr_C06")
 TRUSTED = ["XSalsa20-Poly1305 (NaCl SecretBox): an interface in Lean whose ideal-AEAD properties are hypotheses "
            "(only the honest sealings open); the harness runs real NaCl against the ideal table on every case",
            "HKDF: injective in CTXinfo (hypothesis); the CTXinfo strings themselves are regenerated from /repo",
